@@ -351,27 +351,29 @@ def run(ctx):
         ctx.check(bad is None, "R11.4", f"eval.py::AstEval.{h}", "binds only in the current symbol table",
                   msg=f"{h}: `{short(bad) if bad is not None else ''}` writes outside the current scope", key=f"{h} binding target", node=bad or fu, rel="eval.py")
 
+    ctx.rule("R11.12", "calling a script function through its variable or as a bound method runs it on the evaluator of the calling task (the `ast_ctx` argument), "
+             "never on the evaluator stored at definition time - concurrent calls each keep their own scope pointers", floor=2)
+    tree = program.module("eval.py")
+    n_sites = 0
+    for cls in [c for c in tree.body if isinstance(c, ast.ClassDef) and c.name.startswith("EvalFuncVar")]:
+        for fn in [f for f in cls.body if isinstance(f, (ast.FunctionDef, ast.AsyncFunctionDef)) and f.name == "call"]:
+            params = [a.arg for a in fn.args.args]
+            for site in [n for n in ast.walk(fn) if isinstance(n, ast.Call) and norm(n.func) == "self.func.call"]:
+                n_sites += 1
+                first = norm(site.args[0]) if site.args else None
+                ctx.check(len(params) > 1 and first == params[1], "R11.12", f"eval.py::{cls.name}.call", "forwards the caller's evaluator",
+                          msg=f"{cls.name}.call({', '.join(params)}) runs the function with `{first}` as evaluator instead of its `{params[1] if len(params) > 1 else '?'}` argument: "
+                          f"every call made through it shares one evaluator, two tasks inside such calls overwrite each other's context/scope pointers", key=f"{cls.name}.call evaluator",
+                          node=site, rel="eval.py")
+    if n_sites < 2:
+        raise AnalysisError(f"EvalFuncVar*.call: only {n_sites} forwarding sites found")
+
+    ctx.rule("R11.11", "`from m import *` copies exactly the module's public names (those not starting with an underscore): private globals of the two files stay separate", floor=1)
+    star_import_rule(ctx, program, "R11.11")
+
     # R11.5 action evaluators use the function's own context ----------------------------------------------------------
     ctx.rule("R11.5", "evaluators created to run a function's action are built on that function's own global context", floor=5)
-    sites = {
-        "trigger.py::TrigInfo.call_action": "self.action.global_ctx",
-        "decorator.py::FunctionDecoratorManager.dispatch": "self.eval_func.global_ctx",
-        "eval.py::EvalFunc.trigger_init.pyscript_service_factory.pyscript_service_handler": "self.global_ctx",
-        "decorators/service.py::ServiceDecorator._service_callback": "self.dm.eval_func.global_ctx",
-        "trigger.py::TrigTime.init.user_task_create_factory.user_task_create": "ast_ctx.get_global_ctx()",
-    }
-    for uid2, exp in sites.items():
-        fu = program.func(uid2)
-        calls = [n2 for n2 in body_walk(fu) if isinstance(n2, ast.Call) and call_name(n2) == "AstEval"]
-        got = None
-        if calls and len(calls[0].args) >= 2:
-            got = norm(calls[0].args[1])
-            if isinstance(calls[0].args[1], ast.Name):
-                for m in body_walk(fu):
-                    if isinstance(m, ast.Assign) and norm(m.targets[0]) == got:
-                        got = norm(m.value)
-        ctx.check(got == exp, "R11.5", uid2, f"AstEval built on {exp}", msg=f"{uid2}: the action evaluator is built on `{got}` instead of the function's own context `{exp}`",
-                  key="action evaluator context", node=calls[0] if calls else fu, rel=uid2.split("::")[0])
+    action_evaluator_rule(ctx, program, "R11.5")
     return (
         "Static, source-only: EvalFunc.call is abstractly interpreted in two scenarios (defining context object equal / different from the evaluator's, "
         "same file name in both) and the evaluator's globals/context/scope stack are snapshotted where the body starts; heap-restore on all exits; "
@@ -391,6 +393,55 @@ REUSE_SCEN = [
     ("apps.app1", "apps/app1/__init__", "/cfg/pyscript/apps/app1/__init__.py", "sib", 1, ["apps.app1.sib"]),
     ("modules.pkg.helper", "modules/pkg", "/cfg/pyscript/modules/pkg/helper.py", "sib", 1, ["modules.pkg.sib"]),
 ]
+
+
+def action_evaluator_rule(ctx, program, rid):
+    """Each site that creates the evaluator a triggered/called function runs on hands it the function's own global context."""
+    sites = {
+        "trigger.py::TrigInfo.call_action": "self.action.global_ctx",
+        "decorator.py::FunctionDecoratorManager.dispatch": "self.eval_func.global_ctx",
+        "eval.py::EvalFunc.trigger_init.pyscript_service_factory.pyscript_service_handler": "self.global_ctx",
+        "decorators/service.py::ServiceDecorator._service_callback": "self.dm.eval_func.global_ctx",
+        "trigger.py::TrigTime.init.user_task_create_factory.user_task_create": "ast_ctx.get_global_ctx()",
+    }
+    for uid2, exp in sites.items():
+        fu = program.func(uid2)
+        calls = [n2 for n2 in body_walk(fu) if isinstance(n2, ast.Call) and call_name(n2) == "AstEval"]
+        got = None
+        if calls and len(calls[0].args) >= 2:
+            got = norm(calls[0].args[1])
+            if isinstance(calls[0].args[1], ast.Name):
+                for m in body_walk(fu):
+                    if isinstance(m, ast.Assign) and norm(m.targets[0]) == got:
+                        got = norm(m.value)
+        ctx.check(got == exp, rid, uid2, f"AstEval built on {exp}", msg=f"{uid2}: the action evaluator is built on `{got}` instead of the function's own context `{exp}`",
+                  key="action evaluator context", node=calls[0] if calls else fu, rel=uid2.split("::")[0])
+
+
+def star_import_rule(ctx, program, rid):
+    from ..flow import FlowPolicy, exits, run_flow
+    uid = "eval.py::AstEval.ast_importfrom"
+    names = {"public": Const(1), "_private": Const(2), "__dunder__": Const(3), "trailing_": Const(4), "_": Const(5), "a_b": Const(6)}
+    mod = ObjV("mod", "module")
+    pol = FlowPolicy(program, may_raise_all=False, cancel=False, summaries={"self.global_ctx.module_import": lambda i, n, a, k, c, o: [(c, mod)]})
+    pol.loop_unroll = 10
+    own = [(Const("_private"), Const("mine")), (Const("keep"), Const("mine"))]
+    heap = {"mod.__dict__": DictV([(Const(k), v) for k, v in names.items()]), "self.sym_table": DictV(own), "self.global_ctx": ObjV("gctx", "GlobalContext")}
+    out = run_flow(program, uid, pol, args={"self": ObjV("self", "AstEval"), "arg": to_nodev(ast.parse("from m import *").body[0])}, heap=heap)
+    want = dict(own)
+    want.update({Const(k): v for k, v in names.items() if not k.startswith("_")})
+    bad = None
+    ex = exits(out)
+    for k, c, d in ex:
+        tab = c.heap.get("self.sym_table")
+        got = dict(tab.items) if isinstance(tab, DictV) else None
+        if k != "return" or got != want:
+            extra = sorted(x.v for x in (got or {}) if x not in want or (got or {}).get(x) != want.get(x))
+            missing = sorted(x.v for x in want if x not in (got or {}))
+            bad = f"{d}: the importing scope gets/overwrites {extra}, lacks {missing}"
+    ctx.check(bool(ex) and bad is None, rid, uid, "star import copies the public names only",
+              msg=f"`from m import *` with module globals {sorted(names)}: {bad or 'no exit'}: a private global of the importer is overwritten by (and shared with) the module's", key="star import names",
+              node=program.func(uid), rel="eval.py")
 
 
 def import_reuse_cases(program):
